@@ -97,27 +97,29 @@ type Exec struct {
 	gs    []*Goroutine
 	nchan int
 	// clock: lower bound for the next reading
-	clock     Value
-	nclock    int
-	locks     map[*Value]*lockState
-	wgs       map[*Value]*wgState
-	onces     map[*Value]bool
-	atomics   map[*Value]Value
-	ghost     map[string]Value
-	uuidCount int
-	preempts  int
-	race      *raceState
-	endMsg    string
-	killing   bool
-	ranks     map[string]*rankEntry
-	rankOrder []string
-	eqConst   map[string]*Term
-	h1, h2    uint64
-	model     map[string]interface{} // satisfies pc when modelOK
-	modelOK   bool
-	side      []*Term
-	inInit    bool
-	timers    []*Chan
+	clock         Value
+	nclock        int
+	locks         map[*Value]*lockState
+	wgs           map[*Value]*wgState
+	onces         map[*Value]bool
+	atomics       map[*Value]Value
+	ghost         map[string]Value
+	uuidCount     int
+	preempts      int
+	race          *raceState
+	endMsg        string
+	killing       bool
+	skipIntrinsic *ssa.Function
+	ottoSlowNs    Value
+	ranks         map[string]*rankEntry
+	rankOrder     []string
+	eqConst       map[string]*Term
+	h1, h2        uint64
+	model         map[string]interface{} // satisfies pc when modelOK
+	modelOK       bool
+	side          []*Term
+	inInit        bool
+	timers        []*Chan
 }
 
 func (ex *Exec) global(g *ssa.Global) *Value {
